@@ -230,6 +230,38 @@ def r11_4(ctx: Ctx, rep: Report, helpers: Dict[str, Optional[Func]]) -> None:
     rep.floor(4, "skip-token regions")
 
 
+def skip_forwarding(ctx: Ctx, rep: Report, rid: str = "R11.6") -> None:
+    """The skip options reach the pairwise test unchanged from every entry point: a function that receives `skip` and
+    calls a function that also takes `skip` passes its own value on (not a default, not another value)."""
+    rep.rule(rid)
+    n = 0
+    for f in sorted(ctx.prog.funcs, key=lambda x: x.qualname):
+        if "skip" not in f.params:
+            continue
+        seen_calls = set()
+        for e in ctx.cg.all_edges(f):
+            g = e.target
+            if not isinstance(g, Func) or e.weak or e.kind != "call" or not isinstance(e.site, ast.Call) or "skip" not in g.params or id(e.site) in seen_calls:
+                continue
+            seen_calls.add(id(e.site))
+            n += 1
+            rep.instance()
+            call = e.site
+            val = next((k.value for k in call.keywords if k.arg == "skip"), None)
+            if val is None:
+                params = list(g.params)
+                if g.cls is not None and g.kind in ("method", "getter", "setter", "classmethod") and params:
+                    params = params[1:]
+                i = params.index("skip") if "skip" in params else -1
+                if 0 <= i < len(call.args):
+                    val = call.args[i]
+            if val is not None and src(val) == "skip":
+                rep.ok(f"{f.qualname} -> {g.qualname}", "skip forwarded unchanged", where=where(f, call))
+            else:
+                rep.violation(f.qualname, snippet(call), f"the skip options are not handed on to {g.qualname} ({'not passed: the default applies' if val is None else 'another value: ' + snippet(val)}): this entry point answers as if no option had been given", where(f, call), inp="Acl.shadow_of(skip=['nc_wildcard']) vs Acl.shading(skip=['nc_wildcard'])")
+    rep.floor(4, "calls that must forward the skip options")
+
+
 def run(ctx: Ctx, rep: Report, tier: str) -> None:
     # R11.0: every clause C03 decides about the pairwise test (conjunction, skip independence/monotonicity = the
     # 'for every combination of skip options' clause, sibling agreement, inclusion direction, ...) is a premise here
@@ -245,3 +277,4 @@ def run(ctx: Ctx, rep: Report, tier: str) -> None:
     check_strictly_above(ctx, rep, analyse_shading(ctx))
     r11_4(ctx, rep, helpers)
     r11_5(ctx, rep)
+    skip_forwarding(ctx, rep)
